@@ -2,5 +2,7 @@ INIT Init
 NEXT Next
 INVARIANT ClosedEqRecursion
 INVARIANT Monotone
+INVARIANT ShortcutsSound
+INVARIANT BigDecided
 INVARIANT EmitScn
 CHECK_DEADLOCK FALSE
